@@ -444,8 +444,8 @@ func init() {
 		Assumptions: []string{"the list model of a pipeline (map/filter/chain/take/nest/zip over constant leaves) is trusted; the trace laws themselves need no model of calc"},
 		Families: []core.Family{
 			{Name: "corpus", Count: func(string) int { return len(corpusSessions()) * 2 * len(stressModes) }, Run: func(_ *core.Ctx, idx int) core.Result { return corpusCase("C02", idx, true) }},
-			{Name: "trace", Count: countFn(4000, 600000), Run: c02Trace},
-			{Name: "diff", Count: countFn(3000, 400000), Run: c02Diff},
+			{Name: "trace", Count: countFn(10000, 600000), Run: c02Trace},
+			{Name: "diff", Count: countFn(8000, 400000), Run: c02Diff},
 		},
 		Floors: []core.Floor{{Key: "trace_events", Quick: 60000, Thor: 8000000}, {Key: "yields", Quick: 20000, Thor: 2000000}, {Key: "tag:stage:", Quick: 10, Thor: 10}, {Key: "tag:consumer:", Quick: 6, Thor: 6}, {Key: "context_clone_reuse", Quick: 500, Thor: 50000}},
 	})
